@@ -238,4 +238,30 @@ def ATempl.wf (t : ATempl) : Bool :=
 
 def AModel.wf (M : AModel) : Bool := M.templates.all ATempl.wf
 
+/-! ### Well-formedness proper, and the exception shape
+
+`wf` above contains the clause "the invariant label precedes the rate label", which is *not* implied by "well-formed
+UPPAAL XML" (the DTD allows the labels of a location in any order).  It is split here into what well-formedness really
+says (`wf0`: at most one label of each kind) and the computed exception shape (`rateFirst`). -/
+
+inductive LocShape | rateBeforeInvariant
+  deriving DecidableEq, Repr
+
+def ALoc.wf0 (l : ALoc) : Bool := decide (l.labels.map (·.1)).Nodup && !(l.urgent && l.committed)
+
+def ALoc.shapes (l : ALoc) : List LocShape :=
+  if l.labels.map (·.1) = [.exponentialrate, .invariant] then [.rateBeforeInvariant] else []
+
+def ATempl.wf0 (t : ATempl) : Bool :=
+  decide t.nodeIds.Nodup && decide t.effNames.Nodup &&
+  t.effNames.all (fun n => !t.reserved.contains n) &&
+  t.locs.all ALoc.wf0 &&
+  (match t.init with | some r => (t.locs.map (·.id)).contains r | none => false) &&
+  t.edges.all (fun e => t.nodeIds.contains e.src && t.nodeIds.contains e.tgt)
+
+def AModel.wf0 (M : AModel) : Bool := M.templates.all ATempl.wf0
+
+/-- the computed exception set of a model: the locations whose rate label comes before their invariant label -/
+def AModel.exceptionShapes (M : AModel) : List LocShape := M.templates.flatMap fun t => t.locs.flatMap ALoc.shapes
+
 end UtapModel.AM
